@@ -1090,9 +1090,10 @@ def thorough_matrix():
     m = []
     core = ['perm', 'permrev', 'hren', 'hv2', 'rotfar', 'rotgen', 'all', 'all2']
     more = ['perm#2', 'permh', 'hname', 'hter', 'rot90', 'crlf']
+    mc_only = ('m3-merge-all', 'm3-merge-2', 'm3-eunit-all', 'm3-sep', 'm3-merge-all-eunit-chain', 'm22-merge-2')
     for s in T0:
         for o in OPTSETS:
-            if o == 'm3-alt':
+            if o == 'm3-alt' or o in mc_only:   # the merge/sep option sets belong to the multi-chain structures only
                 continue
             seeds = [0, 1, 4242] if o in ('m3-elastic-cys', 'm22') else []
             m.append((s, o, core + (more if o in ('m3-elastic-cys', 'm3-nt', 'm22', 'eln21-ter') else []), seeds))
